@@ -574,6 +574,18 @@ def _assert_monotonicity_constraints(weights, units, scale, monotonicities,
   dims = units_times_dims // units
   weights = tf.reshape(weights, [-1, lattice_sizes, units, dims, num_terms])
 
+  if utils.count_non_zeros(monotonicities) > 0:
+    # Monotonicity of the product of per-dimension interpolations relies on all
+    # weights being nonnegative (see finalize_weight_constraints).
+    min_weight = tf.reduce_min(weights)
+    monotonicity_asserts.append(
+        tf.Assert(
+            min_weight >= -eps,
+            data=[
+                "Monotonicity violation (negative weights)", "Smallest weight:",
+                min_weight, "Epsilon:", eps, "Weights:", weights
+            ]))
+
   # Extract the sign of scale to determine the assertion direction.
   direction = tf.expand_dims(tf.sign(scale), axis=1)
 
